@@ -509,9 +509,7 @@ def _run_seqsubset_case(case):
     except Exception as e:  # noqa: BLE001
         if it == "median" and composite and req:
             return [], req_attr          # CompositeDistribution has no median: NotImplementedError is the table's answer
-        pattern = "none"
-        if composite and not req and rlp and type(e).__name__ == "TypeError":
-            pattern = "composite-log-prob-of-upstream-samples"          # D148
+        pattern = "none"          # (TypeError from dist.log_prob(*tensors) on a composite was finding D148: repaired, PENDING-D148)
         return [("prob-seq-subset:forward-raises", {"exception": type(e).__name__}, dict(sig, pattern=pattern))], req_attr
     consulted = {}
     for (tag, name, payload) in LOG:
